@@ -19,6 +19,7 @@
   answer on the empty subject has no answer on any subject).  That hypothesis is explicit and is
   only required when the operator is `matches`.
 -/
+import LDEval.Proofs.SemVer
 import LDEval.Properties.C14
 
 namespace LD.C04
@@ -385,5 +386,41 @@ example : clauseMatchNoSeg rx exCtx { op := "in" } = .error .emptyAttr :=
 #print axioms malformed_invalid
 #print axioms matchAny_iff_preprocessed
 #print axioms clause_iff_preprocessed
+
+
+/-! ### The semVer operators are Semantic Versioning 2.0.0 precedence (§11), minor/patch optional -/
+
+/-- Every well-formed version string, with minor and patch optionally omitted, parses to its
+components (missing ones read as 0). -/
+theorem semver_parse_render (p : SemVerM.Parts) (h : p.Valid) : SemVerM.parseBytes p.render =
+    some { major := p.major, minor := p.minor.getD 0, patch := p.patch.getD 0,
+           prerelease := SemVerM.str (SemVerM.joinDots p.pre), build := SemVerM.str (SemVerM.joinDots p.build) } :=
+  SemVerM.parse_render p h
+
+/-- On rendered versions the engine's comparison is the §11 precedence written declaratively
+(`Spec.compare`, with `Spec.compare a b = -1 ↔ precLt a b`). Numeric prerelease identifiers must
+fit in int64: go-semver parses them with wrapping arithmetic (a machine-checked counterexample is
+`SemVerM.Examples.compare_spec_unbounded_counterexample`), which is behaviour of the external
+library, outside what the property fixes. -/
+theorem semver_compare_is_precedence (p q : SemVerM.Parts) (hp : p.Valid) (hq : q.Valid)
+    (bp : p.PreBounded) (bq : q.PreBounded) (vp vq : SemVer)
+    (h1 : SemVerM.parseBytes p.render = some vp) (h2 : SemVerM.parseBytes q.render = some vq) :
+    SemVerM.compare vp vq = SemVerM.Spec.compare p q :=
+  SemVerM.compare_spec_corrected p q hp hq bp bq vp vq h1 h2
+
+/-- Precedence is a total preorder on parsed versions; build metadata never matters. -/
+theorem semver_refl (v : SemVer) : SemVerM.compare v v = 0 := SemVerM.compare_refl v
+theorem semver_antisymm (a b : SemVer) : SemVerM.compare a b = - SemVerM.compare b a :=
+  SemVerM.compare_antisymm a b
+theorem semver_build_ignored (a b : SemVer) (x : String) :
+    SemVerM.compare { a with build := x } b = SemVerM.compare a b := SemVerM.compare_build_ignored a b x
+theorem semver_trans_parsed (x y z : List UInt8) (a b c : SemVer)
+    (ha : SemVerM.parseBytes x = some a) (hb : SemVerM.parseBytes y = some b) (hc : SemVerM.parseBytes z = some c)
+    (h1 : SemVerM.compare a b ≤ 0) (h2 : SemVerM.compare b c ≤ 0) : SemVerM.compare a c ≤ 0 :=
+  SemVerM.compare_trans_parsed x y z a b c ha hb hc h1 h2
+/-- Unparseable operands: anything with a NUL or non-ASCII byte, a leading zero, an empty
+component, … is rejected, hence never satisfies a semVer operator. -/
+theorem semver_nonascii_rejected (inp : List UInt8) (h : ¬ SemVerM.Ascii inp) : SemVerM.parseBytes inp = none :=
+  SemVerM.nonascii_rejected inp h
 
 end LD.C04
